@@ -16,6 +16,11 @@ clicks with the left button on the peak of the exact bell. The frequency range t
 default, (0, x) and several (lo, hi) with lo > 0 (`VIEWS`), on a covering sub-lattice (every admissible (nxseg, f_n/fs, xi) x every
 view x both methods, level 1 - in the quick tier the views with lower limit 0 take one method per point, rotating; fs over all
 rates of both parts of the fs axis, channels, band, call form and click abscissa rotating).
+
+The analysis-band axis has two parts: a few bandwidths (`BANDS`, full lattice) and bands WIDER THAN THE DISTANCE FROM THE MODE TO 0 Hz
+(`WIDE`: DF2 = f_n, 1.5 f_n, 2 f_n, 3 f_n and the library default - DF2 not passed - where it exceeds f_n; the lower edge f_n - DF2 is at
+or below the first spectral line, the upper edge may lie beyond fs/2; the property bounds DF2 only from below), walked on a covering
+sub-lattice: every admissible (nxseg, f_n/fs, xi) x every such band x both methods x both routes, level 1, fs and channels rotating.
 """
 import numpy as np
 
@@ -40,7 +45,15 @@ ASSUMPTIONS = [
     "the spectral matrix is S(f) phi phi^T + 1e-9 max(S) I with S(f) = 1/((wn^2-w^2)^2 + (2 xi wn w)^2) on the grid k fs/nxseg, "
     "k = 0..nxseg/2 (periodogram convention)",
     "tolerances are the property's calibrated numbers; a loss of accuracy inside them is not seen",
-    "first-stage band DF1 = max(2 lines, 0.1 bandwidths); analysis band DF2 = 4 or 6 bandwidths; default sppk/npmax/MAClim",
+    "first-stage band DF1 = max(2 lines, 0.1 bandwidths); analysis band DF2 = 4 or 6 bandwidths (full lattice) or wider than the distance "
+    "to 0 Hz (next item); default sppk/npmax/MAClim",
+    "analysis band wider than the distance from the mode to 0 Hz (the property bounds DF2 from below only, 'at least four bandwidths'; "
+    "DF2 = f_n is 1/(2 xi) = 10..25 bandwidths): DF2 = 1, 1.5, 2, 3 times f_n, and the library default (DF2 not passed to the call; 1.0 Hz "
+    "as documented) at sampling rates where 1.0 Hz > f_n - the lower edge f_n - DF2 is then at or below 0 Hz (the band should start at the "
+    "first line), and for the larger ones the upper edge is beyond fs/2. Covering sub-lattice: every admissible (nxseg, f_n/fs, xi) x every "
+    "such band x both methods x both routes (fdd.EFDD_mpe, setup.mpe) at level 1; the sampling rate (all whole and non-whole rates; for the "
+    "default band those with f_n < 1 Hz) and the channel count rotate with the lattice coordinates; an error that needs a particular "
+    "(rate, channels, level) together with such a band can be missed; the interactive route is walked with the bands of a few bandwidths only",
     "setup route: pyoma2.functions.fdd.SD_est is replaced by a function returning the designed (freq, Sy) while run() executes",
     "sampling rates that are not a whole number of Hz (0.64, 1.6, 2.56, 6.25, 12.5, 102.4 Hz: 1/fs is not the inverse of an integer, "
     "fs differs from the nearest integer by 0.4 % ... 56 %) are walked on a covering sub-lattice, not on the full one: every admissible "
@@ -70,6 +83,11 @@ SCALES = (1.0, 1e-6, 1e6, 4e-16, 1e15)
 # sampling rates that are not a whole number of Hz (the statement says "any fs"): decimated 100 Hz records (12.5, 6.25), the
 # power-of-two rates of analysers (2.56, 102.4, 0.64), 1.6; both roundings (up: 0.64, 1.6, 2.56; down: 6.25, 12.5, 102.4)
 FS_FRAC = (0.64, 1.6, 2.56, 6.25, 12.5, 102.4)
+# analysis bands wider than the distance from the mode to 0 Hz: DF2 in units of f_n (lower edge f_n - DF2 <= 0), and the library
+# default (DF2 is not passed; DF2_DEFAULT Hz as documented - used only to decide, from f_n, where the default is such a band)
+WIDE = ("1 fn", "1.5 fn", "2 fn", "3 fn", "default")
+WIDE_FACTOR = {"1 fn": 1.0, "1.5 fn": 1.5, "2 fn": 2.0, "3 fn": 3.0}
+DF2_DEFAULT = 1.0
 TOL_MAC, TOL_F, TOL_XI, TOL_SCALE = 0.999, 0.025, 0.15, 1e-6
 
 
@@ -77,6 +95,15 @@ def admissible(frel, xi, nxseg):
     lines = 2 * xi * frel * nxseg            # half-power bandwidth / line spacing
     periods = frel * nxseg / 2               # periods of the mode in the half record
     return lines >= 4 and periods >= 30
+
+
+def band_df2(band, fn, bw):
+    """(DF2 in Hz as the band reaches, keyword arguments of the call) for a value of the band axis: a number = that many half-power
+    bandwidths, a key of WIDE_FACTOR = that many times f_n, "default" = DF2 left to the library."""
+    if band == "default":
+        return DF2_DEFAULT, {}
+    DF2 = WIDE_FACTOR[band] * fn if band in WIDE_FACTOR else band * bw
+    return DF2, {"DF2": DF2}
 
 
 def design(seed, nxseg, frel, xi, nch, fs):
@@ -146,12 +173,23 @@ def run_case(t, seed, nxseg, frel, xi, nch, fs, band, meth, scales=SCALES, with_
     freq, fn, phi, Sy = design(seed, nxseg, frel, xi, nch, fs)
     df = fs / nxseg
     bw = 2 * xi * fn
-    DF1, DF2 = max(2 * df, 0.1 * bw), band * bw
+    DF1 = max(2 * df, 0.1 * bw)
+    DF2, kw = band_df2(band, fn, bw)
+    wide = band in WIDE
+    if wide:
+        # premises of the wide part of the band axis, from ground truth only: the lower edge is at or below 0 Hz, the band is at
+        # least four bandwidths
+        if not (fn - DF2 <= 0 and DF2 >= 4 * bw):
+            t.violation("harness:band-not-wide", f"band {band}: DF2={DF2:.6g} Hz for f_n={fn:.6g} Hz, bandwidth {bw:.6g} Hz", case)
+            return
+        case["DF2_Hz"] = None if not kw else DF2
+        case["lower_edge_Hz"] = fn - DF2
+    n0 = sum(v[0] for v in t.violations.values())
     ests = {}
     for sc in scales:
         t.evaluations += 1
         try:
-            Fn, Xi, Phi, _ = fdd.EFDD_mpe(sc * Sy, freq, 1.0 / fs, _pick(fn, sc), "per", method=meth, DF1=DF1, DF2=DF2)
+            Fn, Xi, Phi, _ = fdd.EFDD_mpe(sc * Sy, freq, 1.0 / fs, _pick(fn, sc), "per", method=meth, DF1=DF1, **kw)
         except Exception as e:
             t.violation(f"raises:{type(e).__name__}:EFDD_mpe:{meth}", f"{e!r} at level {sc:g}", dict(case, scale=sc))
             continue
@@ -169,11 +207,20 @@ def run_case(t, seed, nxseg, frel, xi, nch, fs, band, meth, scales=SCALES, with_
         else:
             t.outcomes["level-invariant"] += 1
     if with_setup:
-        setup_route(t, seed, nxseg, fs, meth, freq, Sy, fn, xi, phi, DF1, DF2, case)
+        setup_route(t, seed, nxseg, fs, meth, freq, Sy, fn, xi, phi, DF1, kw, case)
+    if wide:                                            # vacuity monitors of the wide part of the band axis (ground truth only)
+        ok = sum(v[0] for v in t.violations.values()) == n0
+        t.outcomes[f"{meth} {'within' if ok else 'outside'} tolerance on both routes, band {band} (lower edge at or below 0 Hz)"] += 1
+        if fn - DF2 < 0:
+            t.outcomes[f"{'within' if ok else 'outside'} tolerance, lower edge of the band below 0 Hz ({meth})"] += 1
+        if DF2 >= 2 * fn:
+            t.outcomes[f"{'within' if ok else 'outside'} tolerance, lower edge of the band at or below -f_n ({meth})"] += 1
+        if fn + DF2 > fs / 2:
+            t.outcomes[f"{'within' if ok else 'outside'} tolerance, band reaches below 0 Hz and beyond fs/2 ({meth})"] += 1
     t.nontrivial.add((nxseg, frel, xi, nch, fs, band, meth))
 
 
-def setup_route(t, seed, nxseg, fs, meth, freq, Sy, fn, xi, phi, DF1, DF2, case):
+def setup_route(t, seed, nxseg, fs, meth, freq, Sy, fn, xi, phi, DF1, kw, case):
     from pyoma2 import algorithms as A
     from pyoma2.functions import fdd
     from pyoma2.setup import SingleSetup
@@ -190,7 +237,7 @@ def setup_route(t, seed, nxseg, fs, meth, freq, Sy, fn, xi, phi, DF1, DF2, case)
             ss.run_by_name("a")
         finally:
             fdd.SD_est = orig
-        ss.mpe("a", sel_freq=_pick(fn, 0), DF1=DF1, DF2=DF2)
+        ss.mpe("a", sel_freq=_pick(fn, 0), DF1=DF1, **kw)
         res = alg.result
         Fn, Xi, Phi = res.Fn, res.Xi, res.Phi
     except Exception as e:
@@ -410,9 +457,28 @@ def frac_points(nxseg, frel, xi, thorough):
     return out
 
 
+def wide_points(nxseg, frel, xi):
+    """The covering sub-lattice of the bands wider than the distance to 0 Hz at one (nxseg, f_n/fs, xi): every band of WIDE with a
+    sampling rate and a channel count that rotate with the lattice coordinates only; for the library default the rate is taken among
+    those where DF2_DEFAULT > f_n (ground truth)."""
+    i = NXSEG.index(nxseg), FREL.index(frel), XI.index(xi)
+    out = []
+    for k, band in enumerate(WIDE):
+        pool = FS_ALL if band != "default" else tuple(fs for fs in FS_ALL if DF2_DEFAULT > frel * fs)
+        fs = pool[(i[0] + 2 * i[1] + 3 * i[2] + 3 * k) % len(pool)]
+        nch = NCH[(i[1] + i[2] + k) % len(NCH)]
+        out.append((fs, nch, band))
+    return out
+
+
 def item(it):
     seed, nxseg, frel, xi, fss, nchs = it[:6]
     t = Tally()
+    if len(it) > 7 and it[7] == "wide":              # bands wider than the distance to 0 Hz (same in both tiers)
+        for fs, nch, band in wide_points(nxseg, frel, xi):
+            for meth in METHODS:
+                run_case(t, seed, nxseg, frel, xi, nch, fs, band, meth, scales=SCALES[:1])
+        return t
     if len(it) > 7:                                  # interactive route: it[6] = thorough flag, it[7] = "dialog"
         for p in plot_points(nxseg, frel, xi, it[6]):
             plot_case(t, seed, nxseg, frel, xi, *p)
@@ -442,7 +508,12 @@ def explore(ctx):
                        "sub-lattice of the non-integer fs": "every (nxseg, fn/fs, xi) x fs x method x both routes, level 1; channels = "
                        "NCH[(i_f + i_xi + k) mod 3], band = " + ("both" if ctx.thorough else "BANDS[(i_nxseg + i_f + i_xi + k) mod 2]")
                        + " with i_* the indices on the axes and k the index of fs",
-                       "DF2 (bandwidths)": list(BANDS), "method": list(METHODS), "level (factor on Sy)": list(SCALES),
+                       "DF2 (bandwidths)": list(BANDS),
+                       "DF2 wider than the distance to 0 Hz": list(WIDE) + [f"default = DF2 not passed ({DF2_DEFAULT:g} Hz), at rates with f_n < {DF2_DEFAULT:g} Hz"],
+                       "sub-lattice of the wide bands": "every (nxseg, fn/fs, xi) x band of WIDE x method x both routes, level 1; fs = POOL[(i_nxseg + "
+                       "2 i_f + 3 i_xi + 3 k) mod len(POOL)] with POOL = " + str(list(FS_ALL)) + " (for the default band: the rates with fn/fs x fs < "
+                       f"{DF2_DEFAULT:g} Hz), channels = NCH[(i_f + i_xi + k) mod 3]; k the index of the band",
+                       "method": list(METHODS), "level (factor on Sy)": list(SCALES),
                        "routes": ["fdd.EFDD_mpe", "EFDD/FSDD class in SingleSetup (level 1)",
                                   "EFDD/FSDD.mpe_from_plot through the real dialog, head-less (level 1)"],
                        "dialog opened with freqlim (views)": [v for v, _ in VIEWS],
@@ -466,12 +537,18 @@ def explore(ctx):
                     items += [(ctx.seed, nxseg, frel, xi, fss, (nch,)) for nch in NCH]
                 items.append((ctx.seed, nxseg, frel, xi, FS_FRAC, None, bool(ctx.thorough)))
                 items.append((ctx.seed, nxseg, frel, xi, None, None, bool(ctx.thorough), "dialog"))
+                items.append((ctx.seed, nxseg, frel, xi, None, None, bool(ctx.thorough), "wide"))
     ctx.guard_share_limit = 0.5
     ctx.pmap(item, items, chunksize=1)
     ctx.require("EFDD within tolerance (function)", "FSDD within tolerance (function)", "EFDD within tolerance (setup)",
                 "FSDD within tolerance (setup)", "level-invariant")
     ctx.require(*[f"within tolerance at fs = {fs:g} Hz ({meth}, {route})"
                   for fs in FS_FRAC for meth in METHODS for route in ("function", "setup")])
+    # bands wider than the distance to 0 Hz: every such band with both methods; lower edge strictly below 0, at or below -f_n, and
+    # bands that also reach beyond fs/2
+    ctx.require(*[f"{meth} within tolerance on both routes, band {band} (lower edge at or below 0 Hz)" for band in WIDE for meth in METHODS])
+    ctx.require(*[f"within tolerance, {what} ({meth})" for meth in METHODS for what in (
+        "lower edge of the band below 0 Hz", "lower edge of the band at or below -f_n", "band reaches below 0 Hz and beyond fs/2")])
     # the interactive route: every view with both methods, views that hide lines below the click, both call forms and clicks
     ctx.require(*[f"{meth} within tolerance, dialog opened with {view}" for view, _ in VIEWS for meth in METHODS])
     ctx.require(*[f"within tolerance, click on a view that hides lines below it ({meth})" for meth in METHODS])
